@@ -1042,13 +1042,17 @@ def run(ctx):
         "MagicProperties.__init__,update,as_dict / validate_property_class / get_style / DefaultSettings.reset / "
         "BaseGeo style handling, tied by the history correspondence (harness/props/C20.py)",
         "values outside the generated pools (arbitrary colours, Trace3d data, non-str labels) are outside the model",
+        "coqchk (thorough tier) re-checks Proofs/StyleGen.vo and the model definitions only; the reflexive "
+        "schema-wide theorems (vm_compute) are checked by coqc alone",
     ]
     ok = ctx.regen(["GenStyle"])
     built = ctx.build_props() and ok
     if ok:
         run_guarded(ctx, lambda: forwarding_obligation(ctx), "C20 forwarding table")
     if ctx.tier == "thorough" and built:
-        ctx.coqchk("MV.Props.C20")
+        # coqchk has no VM: it would re-evaluate the reflexive schema-wide proofs (minutes under vm_compute)
+        # with lazy conversion and not finish; it re-checks the inductive part (and every model definition)
+        ctx.coqchk("MV.Proofs.StyleGen")
     ctx.refuted = [t for t in ctx.theorems if t.endswith("_refuted")]
     ctx.partial = [t for t in ctx.theorems if t.endswith("_partial")]
 
